@@ -68,6 +68,12 @@ func (m DistributedExecutionOptimizer) Optimize(plan parser.Expr) parser.Expr {
 			return true
 		}
 
+		// An expression which does not select any series (time(), pi(), ...) is the same
+		// everywhere: it is not sent to the remote engines on its own.
+		if !selectsSeries(*current) {
+			return false
+		}
+
 		// If the current node is an aggregation, distribute the operation and
 		// stop the traversal.
 		if aggr, ok := (*current).(*parser.AggregateExpr); ok {
@@ -112,11 +118,24 @@ func (m DistributedExecutionOptimizer) makeSubQueries(current *parser.Expr, engi
 	return remoteQueries
 }
 
+// selectsSeries reports whether the expression contains a selector.
+func selectsSeries(expr parser.Expr) bool {
+	found := false
+	parser.Inspect(expr, func(node parser.Node, _ []parser.Node) error {
+		if _, ok := node.(*parser.VectorSelector); ok {
+			found = true
+		}
+		return nil
+	})
+	return found
+}
+
 func isDistributive(expr *parser.Expr) bool {
 	if expr == nil {
 		return false
 	}
 	switch aggr := (*expr).(type) {
+
 	case *parser.BinaryExpr:
 		// Binary expressions are joins and need to be done across the entire
 		// data set. This is why we cannot push down aggregations where
